@@ -23,6 +23,9 @@ pub struct G<'a> {
     /// generator option (not a random choice): row generators may script refusable offers
     /// (`RowProg::offers`); only the properties whose oracle knows about them turn it on
     pub allow_offers: bool,
+    /// set by the coverage-guided fuzz target: generators leave out the cases of tens of
+    /// megabytes (a fuzzer that is rewarded with new coverage for them would do nothing else)
+    pub fuzzing: bool,
 }
 
 thread_local! {
@@ -32,7 +35,7 @@ thread_local! {
 
 impl<'a> G<'a> {
     pub fn new(data: &'a [u32]) -> Self {
-        G { data, pos: 0, allow_offers: false }
+        G { data, pos: 0, allow_offers: false, fuzzing: false }
     }
     pub fn used(&self) -> usize {
         self.pos
